@@ -447,7 +447,13 @@ class Zygote:
                     unknown.append((rec, v))
             emit(rec)
 
-        self.pool(tasks(), self.run_seeded, on_result, stop=lambda: len(unknown) >= 1)
+        survey = bool(job.get("survey"))
+        self.pool(tasks(), self.run_seeded, on_result, stop=lambda: (not survey) and len(unknown) >= 1)
+        if survey:
+            hist = {}
+            for rec, v in unknown:
+                hist.setdefault(v["signature"], []).append(v.get("detail"))
+            emit({"type": "survey", "hist": {k: [len(d), d[0]] for k, d in hist.items()}})
         # minimise unknown violations (distinct signatures, at most 3)
         seen = set()
         for rec, v in unknown:
@@ -507,6 +513,26 @@ class Zygote:
         self.pool(tasks(), self.run_seeded, on)
         out.close()
 
+    def main_debug(self):
+        """Run one index in-process with per-step timing (diagnostics only)."""
+        job = self.job
+        cfg = dict(self.profile.gen_cfg(job.get("tier", "quick"), self.jit), index=job["index"])
+        seed = run_seed(int(job["base_seed"]), job["property"], job["index"])
+        trace = self.profile.generate(random.Random(seed), cfg)
+        print("seed", seed, "sources", json.dumps(trace.get("source_ids") or trace["sources"]))
+        orig = self.profile.step
+
+        def timed(W, i, op):
+            t = time.time()
+            r = orig(W, i, op)
+            print(f"  step {i:3d} {time.time() - t:8.3f}s {json.dumps(op)}  -> {[v['signature'] for v in r[1]]}")
+            sys.stdout.flush()
+            return r
+
+        self.profile.step = timed
+        rec = self.profile.execute(trace, self.env)
+        print("violations", rec["violations"])
+
     def cleanup(self):
         shutil.rmtree(self.scratch, ignore_errors=True)
 
@@ -525,6 +551,8 @@ def zygote_main(jobfile):
             z.main_trace()
         elif mode == "seeds":
             z.main_seeds()
+        elif mode == "debug":
+            z.main_debug()
         else:
             raise ValueError(mode)
     except BaseException:
@@ -651,7 +679,7 @@ def run_check(prop, tier, base_seed, only_jit=None):
         want_on = False
     w_on = max(2, ncpu // 4) if (want_on and want_off) else ncpu
     w_off = max(2, ncpu - w_on) if (want_on and want_off) else ncpu
-    common = {"property": prop, "mode": "runs", "tier": tier, "base_seed": base_seed, "run_timeout": budget.get("run_timeout", 120)}
+    common = {"property": prop, "mode": "runs", "tier": tier, "base_seed": base_seed, "run_timeout": budget.get("run_timeout", 120), "survey": bool(os.environ.get("VERIF_SURVEY"))}
     if tier == "quick":
         if want_off:
             zs.append(spawn_zygote(dict(common, workers=w_off, max_runs=budget["off_runs"], offset=0, stride=2, budget_s=budget["timeout"] - 60), False))
@@ -695,6 +723,10 @@ def run_check(prop, tier, base_seed, only_jit=None):
 def finish_check(prop, tier, base_seed, recs, harness_errors, wall, mod, extra):
     runs = [r for r in recs if r.get("type") == "run"]
     viols = [r for r in recs if r.get("type") == "violation"]
+    for r in recs:
+        if r.get("type") == "survey":
+            for k, (n, d) in sorted(r["hist"].items(), key=lambda kv: -kv[1][0]):
+                print(f"SURVEY jit={r.get('jit')} {n:5d}  {k}\n          {d}")
     for v in extra.get("violations", []):
         viols.append(v)
     findings = load_findings(prop)
